@@ -304,6 +304,9 @@ func ruleC15(c *Ctx) {
 	c.rule("C15-R3", "instant: IssueInstant = Format(\"2006-01-02T15:04:05Z\") of sp.Clock.Now().UTC() (the literal Z makes .UTC() mandatory)")
 	c.rule("C15-R5", "signing keeps the built content (shared with C13-R1): the signed document's children are [Child[0], signature, Child[1:]...] of a copy — every child built under R1–R4 is present once, in order")
 	signPlacement(c, "C15-R5")
+	c.rule("C15-R6", "the configuration the builders read (issuers, endpoint URLs, name-id format, authn context, flags, clock) is written by no library function (filtered view of the C17-R1 effect scan): a helper that 'fills in' ServiceProviderIssuer changes the Issuer of every later message")
+	configUntouched(c, "C15-R6", "the fields the message builders read", []string{"ServiceProviderIssuer", "IdentityProviderIssuer", "IdentityProviderSSOURL", "IdentityProviderSLOURL", "AssertionConsumerServiceURL", "ServiceProviderSLOURL",
+		"NameIdFormat", "RequestedAuthnContext", "ForceAuthn", "IsPassive", "SignAuthnRequests", "Clock", "AudienceURI"})
 	c.rule("C15-R4", "child order: the children created on the root form a subsequence of the SAML schema sequence; the returned document's root is the built element, or Sign*(element) exactly under the signing condition")
 	for _, br := range builderRuns(c) {
 		ds, res := br.ds, br.res
@@ -1171,6 +1174,8 @@ func templateFields(src string) ([]string, error) {
 func ruleC16(c *Ctx) {
 	c.rule("C16-R1", "the bytes returned by the three POST body builders come only from a bytes.Buffer written by (*html/template.Template).Execute (package identity checked)")
 	c.rule("C16-R2", "the template source is a compile-time constant; parsed at analysis time: only plain field actions whose fields exist in the data struct with type string; every action sits inside a double-quoted attribute value; one form, method POST, action={{.URL}}; hidden SAMLRequest/SAMLResponse input; RelayState input present exactly on the relayState != \"\" path")
+	c.rule("C16-R5", "the endpoint URLs the forms post to are written by no library function (filtered view of the C17-R1 effect scan): a 'default the SLO URL to the SSO URL' helper elsewhere redirects every later logout form")
+	configUntouched(c, "C16-R5", "the IdP endpoint URLs", []string{"IdentityProviderSSOURL", "IdentityProviderSLOURL"})
 	c.rule("C16-R3", "wiring: .URL <- IdP SSO URL (AuthnRequest) / IdP SLO URL (logout kinds); base64 field <- base64.StdEncoding(doc.WriteToBytes()); .RelayState <- relayState; BuildAuthBodyPost picks the signed document exactly under sp.SignAuthnRequests")
 	for _, ps := range postSpecs {
 		res := c.kernel(ps.Fn, "*")
